@@ -49,9 +49,11 @@ func (server *GripServer) Traversal(query *gripql.GraphQuery, queryServer gripql
 func (server *GripServer) ListGraphs(ctx context.Context, empty *gripql.Empty) (*gripql.ListGraphsResponse, error) {
 	//server.updateGraphMap()
 	graphs := []string{}
+	server.mapLock.RLock()
 	for g := range server.graphMap {
 		graphs = append(graphs, g)
 	}
+	server.mapLock.RUnlock()
 	return &gripql.ListGraphsResponse{Graphs: graphs}, nil
 }
 
@@ -451,7 +453,9 @@ func (server *GripServer) GetSchema(ctx context.Context, elem *gripql.GraphID) (
 	if !server.graphExists(elem.Graph) {
 		return nil, status.Errorf(codes.NotFound, fmt.Sprintf("graph %s: not found", elem.Graph))
 	}
+	server.mapLock.RLock()
 	schema, ok := server.schemas[elem.Graph]
+	server.mapLock.RUnlock()
 	if !ok {
 		if server.conf.Server.AutoBuildSchemas {
 			return nil, status.Errorf(codes.Unavailable, fmt.Sprintf("graph %s: schema not available; try again later", elem.Graph))
@@ -489,7 +493,9 @@ func (server *GripServer) AddSchema(ctx context.Context, req *gripql.Graph) (*gr
 	if err != nil {
 		return nil, fmt.Errorf("failed to store new schema: %v", err)
 	}
+	server.mapLock.Lock()
 	server.schemas[req.Graph] = req
+	server.mapLock.Unlock()
 	return &gripql.EditResult{Id: req.Graph}, nil
 }
 
